@@ -277,7 +277,7 @@ func (u *Unit) discharge(o *Obligation, cfg *solverCfg, seq int) {
 			}
 		}
 	}
-	if !quickDone && o.Expect == "unsat" && len(o.PC) > 12 && cfg.scale <= 1 {
+	if !quickDone && o.Expect == "unsat" && len(o.PC) > 12 {
 		// attempt 1: only the assumptions connected to the goal (sound: fewer hypotheses), short budget
 		for ai, att := range [][2]int{{1, 8}, {1, 5}, {2, 5}, {3, 4}} {
 			rounds := att[0]*10 + ai
@@ -318,11 +318,6 @@ func (u *Unit) discharge(o *Obligation, cfg *solverCfg, seq int) {
 			}
 		}
 	}
-	if !quickDone && cfg.scale > 1 {
-		// second-chance pass: the long portfolio already had its full budget the first time
-		o.Result, o.Backend = "unknown", solvers[0].name
-		return
-	}
 	final := "unknown"
 	backend := ""
 	total := 0.0
@@ -344,6 +339,10 @@ func (u *Unit) discharge(o *Obligation, cfg *solverCfg, seq int) {
 	if o.Expect != "sat" && !cfg.agree {
 		// quick: a short first attempt, then the other back ends at full budget, then the first again
 		use = []solverRun{solvers[0], solvers[1], solvers[2], solvers[0]}
+		if cfg.scale > 1 {
+			// second-chance pass: the first solver has just had its long attempt; the other two at full budget
+			use = []solverRun{solvers[2], solvers[1]}
+		}
 	}
 	for si, sr := range use {
 		if quickDone {
@@ -455,7 +454,7 @@ func dischargeAll(units []*Unit, cfg *solverCfg, workers int) {
 			again = append(again, j)
 		}
 	}
-	if len(again) == 0 || len(again) > 8 {
+	if len(again) == 0 || len(again) > 32 {
 		return
 	}
 	cfg2 := *cfg
